@@ -146,7 +146,12 @@ func attrString(as []Attr, r *rand.Rand) string {
 // Serialise turns abstract tokens into bytes.
 func Serialise(toks []Tok, r *rand.Rand) []byte {
 	var b strings.Builder
-	for _, t := range toks {
+	for i, t := range toks {
+		// the content of a raw-text element is not entity-decoded: write it verbatim
+		if t.T == "text" && i > 0 && (toks[i-1].T == "start" || toks[i-1].T == "self") && rawTextNoDecode[toks[i-1].N] {
+			b.WriteString(t.D)
+			continue
+		}
 		switch t.T {
 		case "start":
 			b.WriteString("<" + caseName(t.N, r) + attrString(t.A, r) + pick(r, "", "", "", " ", "\n") + ">")
@@ -181,6 +186,8 @@ func Serialise(toks []Tok, r *rand.Rand) []byte {
 	}
 	return []byte(b.String())
 }
+
+var rawTextNoDecode = map[string]bool{"script": true, "style": true, "xmp": true, "iframe": true, "noembed": true, "noframes": true, "noscript": true, "plaintext": true}
 
 // ReadsBackAs checks the concretiser: do the bytes tokenise to exactly toks?
 func ReadsBackAs(b []byte, toks []Tok) bool {
